@@ -26,29 +26,95 @@ fn symbol(v: usize) -> Option<Box<QRCode>> {
     }
 }
 
-fn svg_builder() -> SvgBuilder {
+/// a caller-supplied shape that draws one module in seven and nothing for the others: a document much shorter than
+/// any built-in shape gives for the same symbol
+fn sparse_command(y: usize, x: usize, _cell: fast_qr::Module) -> String {
+    if (x + 2 * y) % 7 == 0 {
+        format!("M{},{}h1v1h-1", x, y)
+    } else {
+        String::new()
+    }
+}
+
+pub const LOGO_NAME: &str = "c19logo.png";
+
+/// the builder of a target kind:
+///  svgd default; svg rounded squares; svgc the sparse caller-supplied shape, margin 0; svgi an embedded image given
+///  as a data URI without parameters (`data:image/svg+xml,...`);
+///  pngd default at original scale; png fit_width(200); pngi an embedded image given as a relative file name (the
+///  child runs in a directory that holds a picture of that name; the output goes to another directory)
+fn svg_for(kind: &str) -> SvgBuilder {
     let mut b = SvgBuilder::default();
-    b.shape(Shape::RoundedSquare);
+    match kind {
+        "svg" => {
+            b.shape(Shape::RoundedSquare);
+        }
+        "svgc" => {
+            b.shape(Shape::Command(sparse_command)).margin(0);
+        }
+        "svgi" => {
+            b.image("data:image/svg+xml,%3Csvg xmlns='http://www.w3.org/2000/svg' viewBox='0 0 2 2'%3E%3Cpath d='M0 0h1v1H0z'/%3E%3C/svg%3E".to_string());
+        }
+        _ => {}
+    }
     b
 }
 
-fn png_builder() -> ImageBuilder {
+fn png_for(kind: &str) -> ImageBuilder {
     let mut b = ImageBuilder::default();
-    b.fit_width(200);
+    match kind {
+        "png" => {
+            b.fit_width(200);
+        }
+        "pngi" => {
+            b.fit_width(120).image(LOGO_NAME.to_string());
+        }
+        _ => {}
+    }
     b
 }
 
 fn expected_bytes(kind: &str, q: &QRCode) -> Result<Vec<u8>, String> {
-    subject::guarded(|| match kind {
-        "svg" => svg_builder().to_str(q).into_bytes(),
-        "svgd" => SvgBuilder::default().to_str(q).into_bytes(),
-        "pngd" => ImageBuilder::default().to_bytes(q).unwrap_or_default(),
-        _ => png_builder().to_bytes(q).unwrap_or_default(),
-    })
+    subject::guarded(|| if kind.starts_with("svg") { svg_for(kind).to_str(q).into_bytes() } else { png_for(kind).to_bytes(q).unwrap_or_default() })
+}
+
+/// expected bytes of a target; kinds whose rendering reads the working directory are rendered by a child process that
+/// runs where the to_file child will run
+fn expected_for(kind: &str, v: usize, q: &QRCode, logo_dir: &str, scratch: &str) -> Result<Vec<u8>, String> {
+    if kind != "pngi" {
+        return expected_bytes(kind, q);
+    }
+    let exe = std::env::current_exe().map_err(|e| e.to_string())?;
+    let outp = format!("{}/expected-{}-{}.bin", scratch, kind, v);
+    let st = std::process::Command::new(exe).arg("c19-child").arg("expect").arg(kind).arg(v.to_string()).arg(&outp).current_dir(logo_dir).stderr(std::process::Stdio::null()).stdout(std::process::Stdio::null()).status().map_err(|e| e.to_string())?;
+    if !st.success() {
+        return Err(format!("child rendering the expected bytes of {} v{} failed: {:?}", kind, v, st));
+    }
+    let b = std::fs::read(&outp).map_err(|e| e.to_string())?;
+    let _ = std::fs::remove_file(&outp);
+    Ok(b)
+}
+
+/// writes the picture the `pngi` target embeds; returns the directory
+fn make_logo_dir(base: &str) -> Result<String, String> {
+    let d = format!("{}/logos", base);
+    std::fs::create_dir_all(&d).map_err(|e| e.to_string())?;
+    let q = symbol(1).ok_or("build")?;
+    let mut b = ImageBuilder::default();
+    b.margin(1);
+    b.to_file(&q, &format!("{}/{}", d, LOGO_NAME)).map_err(|e| format!("{:?}", e))?;
+    Ok(d)
 }
 
 /// child side: build the symbol, call the real to_file, report
 pub fn child_main(args: &[String]) -> i32 {
+    if args.len() == 4 && args[0] == "expect" {
+        let v: usize = args[2].parse().unwrap_or(1);
+        return match symbol(v).and_then(|q| expected_bytes(&args[1], &q).ok()) {
+            Some(b) if std::fs::write(&args[3], &b).is_ok() => 0,
+            _ => 2,
+        };
+    }
     if args.len() < 3 {
         return 2;
     }
@@ -75,12 +141,7 @@ pub fn child_main(args: &[String]) -> i32 {
         let c: fast_qr::convert::ConvertError = e.into();
         format!("{} -> {:?}", d, c)
     }
-    let r = subject::guarded(|| match kind {
-        "svg" => svg_builder().to_file(&q, &path).map_err(use_svg_err),
-        "svgd" => SvgBuilder::default().to_file(&q, &path).map_err(use_svg_err),
-        "pngd" => ImageBuilder::default().to_file(&q, &path).map_err(use_png_err),
-        _ => png_builder().to_file(&q, &path).map_err(use_png_err),
-    });
+    let r = subject::guarded(|| if kind.starts_with("svg") { svg_for(kind).to_file(&q, &path).map_err(use_svg_err) } else { png_for(kind).to_file(&q, &path).map_err(use_png_err) });
     match r {
         Ok(Ok(())) => println!("RESULT ok"),
         Ok(Err(e)) => println!("RESULT err {}", e.replace('\n', " ")),
@@ -105,10 +166,13 @@ fn shim_path(verif_dir: &str) -> String {
 }
 
 /// Runs to_file in a child process under `plan` (shim deviations)
-pub fn run_child(verif_dir: &str, kind: &str, v: usize, path: &str, plan: &[String], target_marker: &str, log_path: &str) -> Result<Run, String> {
+pub fn run_child(verif_dir: &str, kind: &str, v: usize, path: &str, plan: &[String], target_marker: &str, log_path: &str, cwd: Option<&str>) -> Result<Run, String> {
     let exe = std::env::current_exe().map_err(|e| e.to_string())?;
     let _ = std::fs::remove_file(log_path);
     let mut cmd = std::process::Command::new(exe);
+    if let Some(d) = cwd {
+        cmd.current_dir(d);
+    }
     cmd.arg("c19-child").arg(kind).arg(v.to_string()).arg(path.replace('\0', "\\0"));
     cmd.env("LD_PRELOAD", shim_path(verif_dir));
     cmd.env("FQV_FAULT_PATH", target_marker);
@@ -168,10 +232,12 @@ pub fn replay(case: &Value, verif_dir: &str) -> Result<Vec<(String, String)>, St
     let dir = format!("{}/scratch/c19-replay-{}", verif_dir, std::process::id());
     std::fs::create_dir_all(&dir).map_err(|e| e.to_string())?;
     let q = symbol(v).ok_or("build")?;
-    let expected = expected_bytes(&kind, &q)?;
+    let logo_dir = make_logo_dir(&dir)?;
+    let cwd = if kind == "pngi" { Some(logo_dir.as_str()) } else { None };
+    let expected = expected_for(&kind, v, &q, &logo_dir, &dir)?;
     let res = if let Some(p) = case.get("os_path").and_then(|x| x.as_str()) {
         let path = p.replace("{dir}", &dir);
-        let run = run_child(verif_dir, &kind, v, &path, &[], "fqv-no-such-marker", &format!("{}/log", dir))?;
+        let run = run_child(verif_dir, &kind, v, &path, &[], "fqv-no-such-marker", &format!("{}/log", dir), cwd)?;
         judge_os(&run, &path)
     } else {
         let path = format!("{}/fqvtarget.{}", dir, if kind.starts_with("svg") { "svg" } else { "png" });
@@ -179,7 +245,7 @@ pub fn replay(case: &Value, verif_dir: &str) -> Result<Vec<(String, String)>, St
         if case.get("stale_file").and_then(|x| x.as_bool()).unwrap_or(false) {
             let _ = std::fs::write(&path, vec![b'S'; 1 << 20]);
         }
-        let run = run_child(verif_dir, &kind, v, &path, &plan, "fqvtarget", &format!("{}/log", dir))?;
+        let run = run_child(verif_dir, &kind, v, &path, &plan, "fqvtarget", &format!("{}/log", dir), cwd)?;
         judge(&run, std::fs::read(&path).ok(), &expected, &plan)
     };
     let _ = std::fs::remove_dir_all(&dir);
@@ -196,7 +262,7 @@ fn judge_os(run: &Run, path: &str) -> Vec<(String, String)> {
 
 pub fn run(ctx: &Ctx) -> Collector {
     let col = Collector::new("C19", "fault_enumeration");
-    col.set_rule("cases = for SvgBuilder::to_file and ImageBuilder::to_file on 8 (thorough 14) builder/symbol targets whose output sizes range from 0.3 KB to 0.5 MB and straddle the 4 KiB, 8 KiB and 64 KiB buffer sizes: (i) real OS faults: missing directory, path is a directory, /dev/full (ENOSPC at write time), path containing NUL, empty path, long paths with multi-byte characters at four alignments, a 300-character name; (i') no fault over 7 kinds of file already present (identical, same length differing in the last / first / one late byte, longer, shorter, empty); (ii) faults injected below the crate by an LD_PRELOAD shim over open/open64/openat/write/close: ALL fault sequences of up to 2 (thorough 3) deviations, a deviation = (k-th open of the target, class in {EACCES, EROFS, ENOENT, EISDIR, ENOSPC, EMFILE, ETXTBSY, EBUSY, and persistently EAGAIN, ETXTBSY, EBUSY, ETIMEDOUT}) or (k-th write to the target, class in {ENOSPC, EIO, EDQUOT, EFBIG, EINTR, short 1 byte, short n/2, short n-1, and persistently EAGAIN, ENOSPC, EIO}), k ranging over every call index in the syscall log of the run being extended (DFS over prefixes); each run is a child process calling the real to_file, once with no file present and once over a stale 1 MiB file (longer than any output); oracle: no panic/abort; Ok => file bytes = to_str()/to_bytes() of the same builder; after any delivered fault Err is accepted, Ok only with the exact bytes in the file (a writer that recovers and completes the file is right); non-trivial = a fault was delivered; distinct = distinct (target, plan) pairs with distinct syscall logs");
+    col.set_rule("cases = for SvgBuilder::to_file and ImageBuilder::to_file on 11 (thorough 19) builder/symbol targets (default, rounded squares, a caller-supplied shape that draws one module in seven, an embedded image given as a parameterless data URI, fit_width, an embedded image given as a relative file name present in the working directory but not in the output directory) whose output sizes range from 0.2 KB to 0.5 MB and straddle the 4 KiB, 8 KiB and 64 KiB buffer sizes: (i) real OS faults: missing directory, path is a directory, /dev/full (ENOSPC at write time), path containing NUL, empty path, long paths with multi-byte characters at four alignments, a 300-character name; (i') no fault over 7 kinds of file already present (identical, same length differing in the last / first / one late byte, longer, shorter, empty); (ii) faults injected below the crate by an LD_PRELOAD shim over open/open64/openat/write/close: ALL fault sequences of up to 2 (thorough 3) deviations, a deviation = (k-th open of the target, class in {EACCES, EROFS, ENOENT, EISDIR, ENOSPC, EMFILE, ETXTBSY, EBUSY, and persistently EAGAIN, ETXTBSY, EBUSY, ETIMEDOUT}) or (k-th write to the target, class in {ENOSPC, EIO, EDQUOT, EFBIG, EINTR, short 1 byte, short n/2, short n-1, and persistently EAGAIN, ENOSPC, EIO}), k ranging over every call index in the syscall log of the run being extended (DFS over prefixes); each run is a child process calling the real to_file, once with no file present and once over a stale 1 MiB file (longer than any output); oracle: no panic/abort; Ok => file bytes = to_str()/to_bytes() of the same builder; after any delivered fault Err is accepted, Ok only with the exact bytes in the file (a writer that recovers and completes the file is right); non-trivial = a fault was delivered; distinct = distinct (target, plan) pairs with distinct syscall logs");
     col.assume("the OS below the syscall boundary is modelled by the shim's fault classes; faults at close/fsync are not modelled because the crate does not call fsync and ignores close errors like std does");
     let thorough = ctx.tier.thorough();
     let dir = format!("{}/scratch/c19-{}", ctx.verif_dir, std::process::id());
@@ -207,10 +273,18 @@ pub fn run(ctx: &Ctx) -> Collector {
     // output sizes from ~0.3 KB to ~0.5 MB, on both sides of the usual 4 KiB / 8 KiB / 64 KiB buffer sizes:
     // svgd = default SvgBuilder (v1 3.0 KB, v3 5.6 KB, v4 7.0 KB, v5 8.9 KB), svg = rounded squares (v1 9 KB, v10 70 KB),
     // pngd = default ImageBuilder at original scale (a few hundred bytes), png = fit_width(200)
-    let mut targets: Vec<(&str, usize)> = vec![("svgd", 1), ("svgd", 4), ("svgd", 5), ("svg", 1), ("svg", 10), ("pngd", 1), ("png", 1), ("png", 10)];
+    // svgc = a caller-supplied shape that draws little (v2: 0.3 KB), svgi / pngi = with an embedded image
+    let mut targets: Vec<(&str, usize)> = vec![("svgd", 1), ("svgd", 4), ("svgd", 5), ("svg", 1), ("svg", 10), ("pngd", 1), ("png", 1), ("png", 10), ("svgc", 2), ("svgi", 1), ("pngi", 2)];
     if thorough {
-        targets.extend([("svgd", 2), ("svgd", 3), ("svgd", 40), ("svg", 25), ("pngd", 40), ("png", 25)]);
+        targets.extend([("svgd", 2), ("svgd", 3), ("svgd", 40), ("svg", 25), ("pngd", 40), ("png", 25), ("svgc", 20), ("svgi", 7)]);
     }
+    let logo_dir = match make_logo_dir(&dir) {
+        Ok(d) => d,
+        Err(e) => {
+            col.machinery_error(format!("cannot write the picture for the pngi target: {}", e));
+            return col;
+        }
+    };
     let max_dev: usize = if thorough { 3 } else { 2 };
     let runs = AtomicU64::new(0);
     let delivered = AtomicU64::new(0);
@@ -224,15 +298,16 @@ pub fn run(ctx: &Ctx) -> Collector {
                 return;
             }
         };
-        let expected = match expected_bytes(kind, &q) {
+        let tdir = format!("{}/t{}", dir, ti);
+        let _ = std::fs::create_dir_all(&tdir);
+        let cwd = if kind == "pngi" { Some(logo_dir.as_str()) } else { None };
+        let expected = match expected_for(kind, v, &q, &logo_dir, &tdir) {
             Ok(e) => e,
             Err(m) => {
                 col.violation((0, ti as u64), "C19/render-panic".into(), m, json!({"target": kind, "version": v}));
                 return;
             }
         };
-        let tdir = format!("{}/t{}", dir, ti);
-        let _ = std::fs::create_dir_all(&tdir);
         let path = format!("{}/fqvtarget.{}", tdir, if kind.starts_with("svg") { "svg" } else { "png" });
         let logp = format!("{}/log", tdir);
         // (i) real OS faults
@@ -251,7 +326,7 @@ pub fn run(ctx: &Ctx) -> Collector {
             ("missing directory, long non-ASCII path +3", format!("{}/xxx{}/no/\u{4e2d}\u{6587}.{}", tdir, "\u{1F600}".repeat(20), kind)),
             ("name too long", format!("{}/{}.{}", tdir, "n".repeat(300), kind)),
         ] {
-            match run_child(&ctx.verif_dir, kind, v, &p, &[], "fqv-no-such-marker", &logp) {
+            match run_child(&ctx.verif_dir, kind, v, &p, &[], "fqv-no-such-marker", &logp, cwd) {
                 Ok(run) => {
                     runs.fetch_add(1, Ordering::Relaxed);
                     delivered.fetch_add(1, Ordering::Relaxed);
@@ -291,7 +366,7 @@ pub fn run(ctx: &Ctx) -> Collector {
             for (name, old) in variants {
                 let _ = std::fs::remove_file(&path);
                 let _ = std::fs::write(&path, &old);
-                match run_child(&ctx.verif_dir, kind, v, &path, &[], "fqvtarget", &logp) {
+                match run_child(&ctx.verif_dir, kind, v, &path, &[], "fqvtarget", &logp, cwd) {
                     Ok(run) => {
                         runs.fetch_add(1, Ordering::Relaxed);
                         col.eval(Some(crate::util::fnv(format!("{}{}old:{}", kind, v, name).as_bytes())));
@@ -313,7 +388,7 @@ pub fn run(ctx: &Ctx) -> Collector {
                     // a stale file LONGER than anything to_file will write (a missing truncate must show)
                     let _ = std::fs::write(&path, vec![b'S'; 1 << 20]);
                 }
-                let run = match run_child(&ctx.verif_dir, kind, v, &path, &plan, "fqvtarget", &logp) {
+                let run = match run_child(&ctx.verif_dir, kind, v, &path, &plan, "fqvtarget", &logp, cwd) {
                     Ok(r) => r,
                     Err(e) => {
                         col.machinery_error(e);
